@@ -56,12 +56,41 @@ impl Drop for EngineGuard {
 pub static ALLOC_IN_HANDLER: AtomicU32 = AtomicU32::new(0);
 pub static ALLOC_IN_HANDLER_KIND: AtomicU32 = AtomicU32::new(0);
 
+pub const MAX_SETUP_ALLOCS: usize = 16384;
+pub static RECORD_ALLOCS: AtomicU32 = AtomicU32::new(0);
+pub static SETUP_N: AtomicUsize = AtomicUsize::new(0);
+pub static SETUP_ALLOCS: [[AtomicUsize; 2]; MAX_SETUP_ALLOCS] = {
+    const Z: AtomicUsize = AtomicUsize::new(0);
+    const P: [AtomicUsize; 2] = [Z; 2];
+    [P; MAX_SETUP_ALLOCS]
+};
+
 #[inline]
-pub fn note_alloc(kind: u32) {
+pub fn note_alloc(kind: u32, ptr: usize, size: usize) {
     // Called from the global allocator: must not allocate.
     let t = TID.try_with(|t| t.get()).unwrap_or(NONE);
     if t == NONE {
         return;
+    }
+    if t == 0 && RECORD_ALLOCS.load(Ordering::Relaxed) != 0 && !IN_ENGINE.try_with(|d| d.get()).unwrap_or(true) {
+        if kind == 0 {
+            let i = SETUP_N.fetch_add(1, Ordering::Relaxed);
+            if i < MAX_SETUP_ALLOCS {
+                SETUP_ALLOCS[i][0].store(ptr, Ordering::Relaxed);
+                SETUP_ALLOCS[i][1].store(size, Ordering::Relaxed);
+            }
+        } else {
+            // freed during setup: forget the newest live record of that pointer
+            let n = SETUP_N.load(Ordering::Relaxed).min(MAX_SETUP_ALLOCS);
+            let mut i = n;
+            while i > 0 {
+                i -= 1;
+                if SETUP_ALLOCS[i][0].load(Ordering::Relaxed) == ptr {
+                    SETUP_ALLOCS[i][0].store(0, Ordering::Relaxed);
+                    break;
+                }
+            }
+        }
     }
     let d = DEPTH.try_with(|d| d.get()).unwrap_or(0);
     let ie = IN_ENGINE.try_with(|d| d.get()).unwrap_or(true);
@@ -268,6 +297,9 @@ pub struct Opts {
     pub log_ops: bool,
     /// record the atomic ops executed inside signal handler frames
     pub log_handler_ops: bool,
+    /// operations on heap locations that only one thread (frame kind) ever touches are no
+    /// scheduling points; verified in every execution, the explorer restarts when the set grows
+    pub reduce: bool,
 }
 
 pub trait Monitor {
@@ -305,6 +337,12 @@ pub struct Exec {
     pub interleaved: bool,
     /// events the default access mapping treats as racy-checkable
     pub race_check: bool,
+    /// setup allocations sorted by address: (start, end, index)
+    pub named: Vec<(usize, usize, u32)>,
+    /// accessor identity per named location ((tid << 1) | in-handler)
+    pub accessors: HashMap<(u32, u32), u16>,
+    pub new_shared: Vec<(u32, u32)>,
+    pub skipped_ops: u64,
     /// report locks / yields / blocking reads inside handler frames (C03)
     pub handler_discipline: bool,
     pub user: Option<Box<dyn Any>>,
@@ -387,7 +425,31 @@ fn park_forever() -> ! {
     }
 }
 
+pub static SHARED_KEYS: std::sync::Mutex<Vec<(u32, u32)>> = std::sync::Mutex::new(Vec::new());
+
+fn is_shared(k: (u32, u32)) -> bool {
+    SHARED_KEYS.lock().map(|v| v.contains(&k)).unwrap_or(true)
+}
+
 impl Exec {
+    /// Stable name of a heap location: (index of the setup allocation containing it, offset).
+    pub fn key_of(&self, addr: usize) -> Option<(u32, u32)> {
+        let v = &self.named;
+        if v.is_empty() {
+            return None;
+        }
+        let i = v.partition_point(|x| x.0 <= addr);
+        if i == 0 {
+            return None;
+        }
+        let (s, e, idx) = v[i - 1];
+        if addr < e {
+            Some((idx, (addr - s) as u32))
+        } else {
+            None
+        }
+    }
+
     fn new(opts: Opts, replay: Vec<u32>) -> Exec {
         Exec {
             phase: Phase::Setup,
@@ -418,6 +480,10 @@ impl Exec {
             stale_taken: 0,
             interleaved: false,
             race_check: true,
+            named: Vec::new(),
+            accessors: HashMap::new(),
+            new_shared: Vec::new(),
+            skipped_ops: 0,
             handler_discipline: true,
             user: None,
         }
@@ -901,8 +967,31 @@ fn hook_pre(op: &shim::Op) -> u32 {
     e.threads[t].last_site = (op.file, op.line);
     e.threads[t].last_kind = op.kind;
     if e.phase == Phase::Parallel || e.phase == Phase::Priming {
-        e.threads[t].pending = Pending::Op;
-        schedule(t);
+        let mut visible = true;
+        if e.opts.reduce {
+            if let Some(k) = e.key_of(op.addr) {
+                let ident = ((t as u16) << 1) | (handler_depth() > 0) as u16;
+                let shared = is_shared(k);
+                match e.accessors.get(&k) {
+                    None => {
+                        e.accessors.insert(k, ident);
+                    }
+                    Some(&i) if i != ident => {
+                        if !shared && !e.new_shared.contains(&k) {
+                            e.new_shared.push(k);
+                        }
+                    }
+                    _ => {}
+                }
+                visible = shared;
+            }
+        }
+        if visible {
+            e.threads[t].pending = Pending::Op;
+            schedule(t);
+        } else {
+            e.skipped_ops += 1;
+        }
     }
     let e = exec();
     touch_loc(e, op.addr, op.width);
@@ -1182,7 +1271,7 @@ fn hook_event(tag: &'static str, a: u64, b: u64) {
     let e = exec();
     e.push_ev(tag, a, b);
     match tag {
-        "cell_write" | "cell_take" => e.access(a, true, tag),
+        "cell_write" | "cell_take" | "cell_access" => e.access(a, true, tag),
         "snapshot_alloc" => {
             e.forget_region(a);
             e.access(a, true, tag)
@@ -1272,6 +1361,25 @@ pub fn raise(sig: i32) {
     do_raise(t, sig);
 }
 
+/// Deliver `sig` to the controller during scenario setup / finish (no scheduling, the signal is
+/// unblocked only for the duration of the call).
+pub fn setup_raise(sig: i32) {
+    let _g = EngineGuard::enter();
+    block_signals(&[sig], libc::SIG_UNBLOCK);
+    DEPTH.with(|d| d.set(d.get() + 1));
+    let prev = IN_ENGINE.with(|c| c.replace(false));
+    unsafe {
+        libc::raise(sig);
+    }
+    IN_ENGINE.with(|c| c.set(prev));
+    DEPTH.with(|d| d.set(d.get() - 1));
+    block_signals(&[sig], libc::SIG_BLOCK);
+    check_alloc_flag();
+    if let Some(p) = progress() {
+        p.heartbeat.fetch_add(1, Ordering::Relaxed);
+    }
+}
+
 /// Deliver with a payload (`sigqueue` to the calling thread's process is not thread-directed;
 /// `pthread_sigqueue` is).
 pub fn raise_value(sig: i32, value: usize) {
@@ -1343,6 +1451,8 @@ pub struct Outcome {
     pub kinds: Vec<Vec<AltKind>>,
     pub violation: Option<String>,
     pub diverged: u32,
+    pub new_shared: Vec<(u32, u32)>,
+    pub skipped: u64,
 }
 
 fn block_signals(sigs: &[i32], how: i32) {
@@ -1520,9 +1630,27 @@ pub fn run_one<S: Sync + Send + 'static>(sc: &Scenario<S>, choices: &[u32], keep
 
     let body = std::panic::catch_unwind(std::panic::AssertUnwindSafe(|| -> Result<u64, String> {
         let state = {
+            SETUP_N.store(0, Ordering::SeqCst);
+            RECORD_ALLOCS.store(sc.opts.reduce as u32, Ordering::SeqCst);
             IN_ENGINE.with(|c| c.set(false));
             let s = (sc.setup)();
             IN_ENGINE.with(|c| c.set(true));
+            RECORD_ALLOCS.store(0, Ordering::SeqCst);
+            if sc.opts.reduce {
+                let n = SETUP_N.load(Ordering::SeqCst).min(MAX_SETUP_ALLOCS);
+                let mut v: Vec<(usize, usize, u32)> = Vec::with_capacity(n);
+                let mut live = 0u32;
+                for i in 0..n {
+                    let p = SETUP_ALLOCS[i][0].load(Ordering::Relaxed);
+                    let sz = SETUP_ALLOCS[i][1].load(Ordering::Relaxed);
+                    if p != 0 && sz != 0 {
+                        v.push((p, p + sz, live));
+                        live += 1;
+                    }
+                }
+                v.sort();
+                exec().named = v;
+            }
             std::sync::Arc::new(s)
         };
         LEAK_NEXT_RESET.store(false, Ordering::SeqCst);
@@ -1661,6 +1789,8 @@ pub fn run_one<S: Sync + Send + 'static>(sc: &Scenario<S>, choices: &[u32], keep
         log: if keep_log || e.violation.is_some() { std::mem::take(&mut e.log) } else { vec![] },
         violation: e.violation.take(),
         diverged: e.diverged,
+        new_shared: std::mem::take(&mut e.new_shared),
+        skipped: e.skipped_ops,
     };
     unsafe {
         EXEC = std::ptr::null_mut();
